@@ -203,7 +203,8 @@ class CountingBloomFilter(BloomFilter):
             if self._bloom[k] < UINT32_T_MAX:  # only remove if less than UINT32_T_MAX
                 # (a cell selected by two of the hashes is lowered twice: never below 0)
                 self._bloom[k] -= min(to_remove, self._bloom[k])
-        self.elements_added -= to_remove
+        # (the total of a union / intersection is an estimate and may be smaller than what is removed: it is pinned at 0)
+        self.elements_added = max(self.elements_added - to_remove, 0)
         return min_val - to_remove
 
     def intersection(self, second: "CountingBloomFilter") -> Union["CountingBloomFilter", None]:  # type: ignore
